@@ -20,8 +20,8 @@ CHUNK = 1
 def cases(tier):
     return fixfam.fix_cases(
         tier, rulesets_raw=("layout", "all", "format"), rulesets_yaml=("all",) if tier == "quick" else ("all", "format"),
-        rulesets_fixtures=("all",) if tier == "quick" else ("all", "layout"),
-    )
+        rulesets_fixtures=("all",) if tier == "quick" else ("all", "layout"), rulesets_fixture_gaps=("all",),
+    ) + fixfam.layout_product_cases(("all",))
 
 
 def run_case(case):
